@@ -1,6 +1,8 @@
 import sys
 pid=sys.argv[1]
 prop=open('/tmp/prop_%s.txt'%pid).read()
+AVOID=sys.argv[2] if len(sys.argv)>2 else ''
+avoid_txt=('\nALREADY COVERED by earlier rounds - do NOT produce these or close variations of them, find different places and mechanisms: '+AVOID+'\n') if AVOID else ''
 print(f"""You are helping to evaluate a verification tool by producing realistic faulty versions ("seeded changes") of a Python library. Work ONLY inside the git worktree /tmp/seed_{pid} (a checkout of the library py_stringsimjoin: string similarity joins over two pandas tables) and write your deliverables to /tmp/seed_{pid}_out/. Do NOT read, list or touch /verif or /repo, and do not look for other people's seeded changes — your change must be independent.
 
 PROPERTY that the library must satisfy (this is all you are told about it):
@@ -12,7 +14,7 @@ YOUR TASK: produce TWO different, independent changes (variant A and variant B) 
   3. still passes the pinned test suite: run `cd /tmp/seed_{pid} && /venv/bin/python -m pytest -q -p no:cacheprovider --timeout=900 --continue-on-collection-errors 2>&1 | tail -5`. Many tests in this sandbox already fail or error for environment reasons — what matters is that every test listed under "stable_pass" in /root/.vp/BASELINE.json (109 tests) still passes with your change (compare the set of passing test ids before/after, e.g. with --junitxml),
   4. is REALISTIC (the kind of slip a maintainer could make in a refactor or "optimisation": off-by-one, wrong variable of a left/right pair, a dropped branch, a moved statement, a changed condition, a lost argument in one of two near-identical call sites, state not restored on some path, ...) and SMALL (a few lines),
   5. needs SOMETHING SPECIFIC to manifest — e.g. an unusual input (particular token counts/threshold values, empty strings, missing values on one side only, duplicate attribute names, extra columns), a particular n_jobs, a multi-step sequence of API calls sharing objects, or two cooperating edits that each look fine alone. It must NOT be something any ordinary call exposes at once (e.g. do not simply make a function always raise, and do not break the trivial happy path).
-Make A and B genuinely different (different files/mechanisms), not two flavours of the same edit.
+Make A and B genuinely different (different files/mechanisms), not two flavours of the same edit.{avoid_txt}
 
 For each variant write a standalone demonstration program that PASSES (exit code 0) on the unmodified tree and FAILS (non-zero exit: assertion error or exception) with the change applied. The demo takes the path of the library checkout as sys.argv[1] (default: the worktree), does `sys.path.insert(0, path)` before importing py_stringsimjoin, and checks the property's observable behaviour (against an independently computed expectation — brute force in the demo itself is fine).
 
